@@ -28,7 +28,7 @@ def rots(o):
                            for q, i in zip(o["q"], o["imp"])) + "]"
 
 
-HEADER = """From Verif Require Import NdIndex Quat RotArr C17Unique C10.
+HEADER = """From Verif Require Import NdIndex Quat RotArr C17Unique C10Model.
 Open Scope float_scope.
 Inductive case :=
 | Csym (ops : list (rot (T:=float))) (shape : list nat) (data flat : list (list float))
@@ -41,8 +41,8 @@ Definition ang_close (xs ys : list float) : bool := fclose_list_tol 0x1p-17 xs y
 Definition ok (c : case) : bool :=
   match c with
   | Csym ops shape data flat v2 all uniq mult idx mprop =>
-      let n := length flat in
-      let '(u, m, i) := fsym_unique_cols (length ops) (columns [] n v2) in
+      let n := List.length flat in
+      let '(u, m, i) := fsym_unique_cols (List.length ops) (columns [] n v2) in
       frows_eqb (flattenF [] shape data) flat
       && all2 rows_close (outer_rows (ract_row FOps) ops flat) v2
       && frows_eqb (flattenF2 [] n v2) all
@@ -117,7 +117,7 @@ def run(tier, seed):
                        "round: theorem over exact reals for max_index <= 42 (6*M^4 < 2*10^7)"]
     if not ck.step_sanity():
         return ck.finish()
-    ck.step_prove([], "Props/C10.v", extra=["Model/C10.vo"])
+    ck.step_prove([], "Props/C10.v", extra=["Model/C10Model.vo"])
     n = 152 if tier == "quick" else 1900
     out = run_impl("c10.py", {"seed": seed, "n": n})
     cases = out["cases"]
